@@ -54,7 +54,7 @@ Inductive case :=
    re-enter the bridge while they are converted: the Go-side log and the error class *)
 | CReent (calls : list rcall) (log : list (Z * list Z)) (err : Z)
 (* values nested in a pointer-bridged struct passed to pointer / value / interface parameters that mutate them *)
-| CPtr (init : list Z) (ops : list pop) (o : list ob)
+| CPtr (init : list Z) (ops : list pxop) (o : list ob)
 (* a write of JS value v to a bridged struct field of Go type t (path: by name, by
    tag, nested, through a pointer, through a variable, inside try/catch, as a
    member of an object literal assigned to the enclosing struct): the error
@@ -62,7 +62,10 @@ Inductive case :=
 | CFieldWrite (path : Z) (t : gty) (v : jsv) (init : gv) (err : Z) (after : gv)
 (* a function returning row i of a table, called for each i of calls with every
    result kept; what each kept result shows at the end *)
-| CRetHist (rows : list (list gv)) (calls : list Z) (o : list (list jobs)).
+| CRetHist (rows : list (list gv)) (calls : list Z) (o : list (list jobs))
+(* a value of a named scalar type handed to the script along some path: what the
+   script sees, what Export gives, what a Go parameter of that kind receives back *)
+| CNamed (path : Z) (g : gv) (js : jobs) (exported : gv) (back : cres).
 
 (* what a script reads from a bridged numeric element: the double nearest to it *)
 Definition js_read (o : outcome) : option dclass :=
@@ -177,7 +180,7 @@ Definition verdict (c : case) : Z * Z :=
       let e := (flat_map (ev_call 8) calls, 0) in
       judge (fun a b => list_eqb (fun x y => (fst x =? fst y) && zlist_eqb (snd x) (snd y)) (fst a) (fst b) && (snd a =? snd b))
             (log, err) e e 0
-  | CPtr init ops o => let m := prun init ops in judge obs_eqb o m m 0
+  | CPtr init ops o => judge obs_eqb o (pxrun false init ops) (pxrun true init ops) 15
   | CFieldWrite path t v init err after =>
       let run (idn ids : bool) :=
         if (path =? 6) || (path =? 7) then
@@ -195,6 +198,10 @@ Definition verdict (c : case) : Z * Z :=
                 (outcome_of m) (outcome_of (run true true))
                 (if cres_eqb (run true false) m then 11 else 1)
       end
+  | CNamed _ g js exported back =>
+      let e := named_seen g in
+      judge (fun a b => jobs_eqb (fst (fst a)) (fst (fst b)) && gv_eqb (snd (fst a)) (snd (fst b)) && cres_eqb (snd a) (snd b))
+            (js, exported, back) e e 0
   | CRetHist rows calls o =>
       let e := ret_hist rows calls in judge (list_eqb (list_eqb jobs_eqb)) o e e 0
   end.
